@@ -15,6 +15,9 @@ func (a Arg) goValue(root *gorm.DB) interface{} {
 	case a.V != nil:
 		return a.V.Go()
 	case a.E != nil:
+		if a.E.Named() {
+			return clause.NamedExpr{SQL: a.E.SQL, Vars: a.E.args(root)}
+		}
 		return clause.Expr{SQL: a.E.SQL, Vars: a.E.args(root), WithoutParentheses: a.E.NoParen}
 	case a.Q != nil:
 		return a.Q.build(root)
@@ -475,4 +478,9 @@ func (c *Chain) Write() bool {
 // MayNotFind: finishers that report ErrRecordNotFound on an empty result.
 func (c *Chain) MayNotFind() bool {
 	return c.Kind == "query" && (c.Fin == "first" || c.Fin == "take" || c.Fin == "last")
+}
+
+// CreatesFromMap: Create(map) / Create([]map).
+func (c *Chain) CreatesFromMap() bool {
+	return c.Kind == "create" && (c.CrKind == "map" || c.CrKind == "maps")
 }
